@@ -8,7 +8,7 @@ use response_time_analysis::verif_hooks as hooks;
 use crate::framework::{CaseReport, Monitor, Tier};
 use crate::jobj;
 use crate::model::arr::Arr;
-use crate::model::cost::{gen_cost, Cost};
+use crate::model::cost::gen_cost_z;
 use crate::model::uni::{run_lib, Outcome, Policy, Preempt, UniProblem};
 use crate::monitors::safety_uni::gen_system;
 use crate::oracle::uni_eq::{evaluate, table_size, Tables};
@@ -32,11 +32,11 @@ pub fn gen_problem(rng: &mut Rng, tier: Tier, limit: u64) -> UniProblem {
     let tua_rbf_api = policy == Policy::FIFO || matches!(pre, Preempt::Full | Preempt::Floating);
     let others_rbf_api = policy != Policy::EDF || pre != Preempt::Non;
     if tua_rbf_api && rng.chance(1, 3) {
-        p.tua.cost = gen_cost(rng, p.tua.scalar().max(1), false);
+        p.tua.cost = gen_cost_z(rng, p.tua.scalar().max(1));
     }
     for o in p.others.iter_mut() {
         if others_rbf_api && rng.chance(1, 3) {
-            o.cost = gen_cost(rng, o.scalar().max(1), false);
+            o.cost = gen_cost_z(rng, o.scalar().max(1));
             o.max_np = o.max_np.min(o.cost.max_job_cost()).max(1);
         }
         if rng.chance(1, 12) {
